@@ -174,70 +174,182 @@ theorem odt_resolve_history_independent (defs : List Odt.StyleDef) : ∀ (names 
 
 /-- `processHeading` given what `Resolve(h.StyleName)` answered (proof-side factoring of `Odt.processHeading`) -/
 def processHeadingH (h0 : Option Nat) (h : Node) : Odt.Para :=
-  let own := (Odt.level19 (h.attr Odt.sOutlineLevel)).getD 1
-  let lvl := match h0 with
-    | some l => if l > 0 then l else own
-    | none => own
+  let lvl := match Odt.level19 (h.attr Odt.sOutlineLevel) with
+    | some l => l
+    | none =>
+      match h0 with
+      | some l => if l > 0 then l else 1
+      | none => 1
   { text := Odt.paraText h, heading := some lvl, list := none }
 
 /-- `processHeading` reads the resolver once, for the heading's own style name -/
 theorem odt_processHeading_factors (defs : List Odt.StyleDef) (h : Node) :
     Odt.processHeading defs h = processHeadingH (Odt.resolveHeading defs (h.attr Odt.sStyleName)) h := rfl
 
-/-- **odt_heading_level**. The level of a `text:h`: the level its style resolves to (a
-`default-outline-level` in 1..10 of the style's own definition, else what the style name says)
-when there is one, else the heading's own `text:outline-level` in 1..10, else 1. -/
+/-- an accepted outline level is one of 1..10 -/
+theorem level19_range (s : Str) (l : Nat) (hl : Odt.level19 s = some l) : 1 ≤ l ∧ l ≤ 10 := by
+  unfold Odt.level19 at hl
+  cases hp : parseNat? s with
+  | none => simp [hp] at hl
+  | some v =>
+    simp only [hp] at hl
+    by_cases hv : 1 ≤ v ∧ v ≤ 10
+    · simp only [hv, and_self, if_true, Option.some.injEq] at hl; omega
+    · simp [hv] at hl
+
+/-- **odt_heading_level** (the precedence of the repaired `processHeading`, d316e04). The level
+of a `text:h`: its own `text:outline-level` when that is one of 1..10, whatever the style says;
+else the level its style resolves to (a `default-outline-level` in 1..10 of the style's own
+definition, else what the style name says) when there is one; else 1. -/
 theorem odt_heading_level (defs : List Odt.StyleDef) (h : Node) :
-    (∀ l, Odt.resolveHeading defs (h.attr Odt.sStyleName) = some l → 0 < l → (Odt.processHeading defs h).heading = some l)
-    ∧ (Odt.resolveHeading defs (h.attr Odt.sStyleName) = none →
-        (Odt.processHeading defs h).heading = some ((Odt.level19 (h.attr Odt.sOutlineLevel)).getD 1))
+    (∀ l, Odt.level19 (h.attr Odt.sOutlineLevel) = some l → (Odt.processHeading defs h).heading = some l)
+    ∧ (Odt.level19 (h.attr Odt.sOutlineLevel) = none →
+        ∀ l, Odt.resolveHeading defs (h.attr Odt.sStyleName) = some l → 0 < l → (Odt.processHeading defs h).heading = some l)
+    ∧ (Odt.level19 (h.attr Odt.sOutlineLevel) = none → Odt.resolveHeading defs (h.attr Odt.sStyleName) = none →
+        (Odt.processHeading defs h).heading = some 1)
     ∧ (∀ l, Odt.level19 (h.attr Odt.sOutlineLevel) = some l → 1 ≤ l ∧ l ≤ 10) := by
   rw [odt_processHeading_factors]
-  refine ⟨?_, ?_, ?_⟩
-  · intro l hr hl; simp [processHeadingH, hr, hl]
-  · intro hr; simp [processHeadingH, hr]
-  · intro l hl
-    unfold Odt.level19 at hl
-    cases hp : parseNat? (h.attr Odt.sOutlineLevel) with
-    | none => simp [hp] at hl
-    | some v =>
-      simp only [hp] at hl
-      by_cases hv : 1 ≤ v ∧ v ≤ 10
-      · simp only [hv, and_self, if_true, Option.some.injEq] at hl; omega
-      · simp [hv] at hl
+  refine ⟨?_, ?_, ?_, ?_⟩
+  · intro l hl; simp [processHeadingH, hl]
+  · intro hn l hr hl; simp [processHeadingH, hn, hr, hl]
+  · intro hn hr; simp [processHeadingH, hn, hr]
+  · intro l hl; exact level19_range _ l hl
 
-/-- **odt_heading_outline_level_partial**. The statement of the property - the level of a
-`text:h` is the outline level the heading says itself (`text:outline-level` in 1..10; ODF 1.2
-part 1, 5.1.2) - for the headings whose paragraph style resolves to no level or to that very
-level. FULL STATEMENT (does not hold, see `odt_heading_own_style_level_counterexample`):
-`level19 (h.attr sOutlineLevel) = some l → (processHeading defs h).heading = some l` for every
-style sheet. Missing: `processHeading` prefers the level of the style the heading names. -/
-theorem odt_heading_outline_level_partial (defs : List Odt.StyleDef) (h : Node) (l : Nat)
-    (hl : Odt.level19 (h.attr Odt.sOutlineLevel) = some l)
-    (hs : Odt.resolveHeading defs (h.attr Odt.sStyleName) = none ∨ Odt.resolveHeading defs (h.attr Odt.sStyleName) = some l) :
+/-- **odt_heading_outline_level** (was `_partial` before d316e04). The statement of the
+property at full strength: the level of a `text:h` is the outline level the heading says itself
+(`text:outline-level` in 1..10; ODF 1.2 part 1, 5.1.2 and 19.844) - for EVERY style sheet and
+every style name the heading carries: no definition chain, no `style:default-outline-level`
+and no built-in name `Heading_20_N` changes it. -/
+theorem odt_heading_outline_level (defs : List Odt.StyleDef) (h : Node) (l : Nat)
+    (hl : Odt.level19 (h.attr Odt.sOutlineLevel) = some l) :
     (Odt.processHeading defs h).heading = some l := by
+  simp [Odt.processHeading, hl]
+
+example : Odt.level19 (Node.attr (.elem [116, 101, 120, 116, 58, 104] [([116, 101, 120, 116, 58] ++ Odt.sOutlineLevel, [51])] []) Odt.sOutlineLevel) = some 3 := by decide
+
+/-- the level does not depend on the style sheet nor on the style the heading names, as long
+as the heading says a valid level itself: two documents that differ in their styles only
+report the same level for it -/
+theorem odt_heading_level_style_independent (defs defs' : List Odt.StyleDef) (tag : Str) (attrs attrs' : List (Str × Str))
+    (kids : List Node) (l : Nat)
+    (hl : Odt.level19 (Node.attr (.elem tag attrs kids) Odt.sOutlineLevel) = some l)
+    (hl' : Odt.level19 (Node.attr (.elem tag attrs' kids) Odt.sOutlineLevel) = some l) :
+    (Odt.processHeading defs (.elem tag attrs kids)).heading = (Odt.processHeading defs' (.elem tag attrs' kids)).heading := by
+  rw [odt_heading_outline_level defs _ l hl, odt_heading_outline_level defs' _ l hl']
+
+/-- every level `detectBuiltInHeading` reads off a style name is one of 1..10 -/
+theorem detectBuiltInHeading_range (name : Str) (l : Nat) (hd : Odt.detectBuiltInHeading name = some l) : 1 ≤ l ∧ l ≤ 10 := by
+  unfold Odt.detectBuiltInHeading at hd
+  simp only at hd
+  split at hd
+  · rename_i e he
+    have hm := List.mem_of_find?_eq_some he
+    have hall : ∀ e ∈ Odt.headingMap, 1 ≤ e.2 ∧ e.2 ≤ 10 := by decide
+    simp only [Option.some.injEq] at hd
+    rw [← hd]; exact hall e hm
+  · split at hd
+    · simp only [Option.some.injEq] at hd
+      rw [← hd]
+      unfold Odt.nameLevel
+      split
+      · omega
+      · split
+        · rename_i i hi
+          have := List.mem_of_find?_eq_some hi
+          simp only [List.mem_range] at this
+          omega
+        · omega
+    · simp at hd
+
+/-- every level a style resolves to is one of 1..10 -/
+theorem odt_resolveHeading_range (defs : List Odt.StyleDef) (name : Str) (l : Nat)
+    (hr : Odt.resolveHeading defs name = some l) : 1 ≤ l ∧ l ≤ 10 := by
+  unfold Odt.resolveHeading at hr
+  split at hr
+  · simp at hr
+  · split at hr
+    · exact detectBuiltInHeading_range _ l hr
+    · split at hr
+      · rename_i d _ l' hl'
+        simp only [Option.some.injEq] at hr
+        rw [← hr]; exact level19_range _ l' hl'
+      · exact detectBuiltInHeading_range _ l hr
+
+/-- **odt_heading_level_range**. Every `text:h` is reported as a heading of a level in 1..10,
+whatever its attributes and the style sheet say. -/
+theorem odt_heading_level_range (defs : List Odt.StyleDef) (h : Node) :
+    ∃ l, (Odt.processHeading defs h).heading = some l ∧ 1 ≤ l ∧ l ≤ 10 := by
   rw [odt_processHeading_factors]
-  rcases hs with hs | hs
-  · simp [processHeadingH, hs, hl]
-  · by_cases h0 : 0 < l
-    · simp [processHeadingH, hs, h0]
-    · simp [processHeadingH, hs, hl, h0]
+  cases hl : Odt.level19 (h.attr Odt.sOutlineLevel) with
+  | some l => exact ⟨l, by simp [processHeadingH, hl], level19_range _ l hl⟩
+  | none =>
+    cases hr : Odt.resolveHeading defs (h.attr Odt.sStyleName) with
+    | none => exact ⟨1, by simp [processHeadingH, hl], by omega, by omega⟩
+    | some l =>
+      have := odt_resolveHeading_range defs _ l hr
+      exact ⟨l, by simp [processHeadingH, hl]; omega, this⟩
 
-example : Odt.level19 (Node.attr (.elem [116, 101, 120, 116, 58, 104] [([116, 101, 120, 116, 58] ++ Odt.sOutlineLevel, [51])] []) Odt.sOutlineLevel) = some 3
-    ∧ Odt.resolveHeading [] (Node.attr (.elem [116, 101, 120, 116, 58, 104] [([116, 101, 120, 116, 58] ++ Odt.sOutlineLevel, [51])] []) Odt.sStyleName) = none := by decide
+/-! #### history: `processHeading` before d316e04 (`Odt.processHeadingOld`) -/
 
-/-- **odt_heading_own_style_level_counterexample** (finding C16/odt-outline-level-vs-own-style-level).
+/-- **odt_heading_own_style_level_pinned_counterexample** (was finding
+C16/odt-outline-level-vs-own-style-level; repaired in d316e04).
 `<text:h text:style-name="Heading_20_1" text:outline-level="3">` in a document whose style
-`Heading_20_1` carries `style:default-outline-level="1"`: the heading says level 3, the reader
-reports level 1 (`processHeading`: "if style has heading level, prefer that"). The same happens
-with no definition of the style at all (the level is then read off the built-in name). -/
-theorem odt_heading_own_style_level_counterexample :
+`Heading_20_1` carries `style:default-outline-level="1"`: the heading says level 3, the OLD
+reader reported level 1 ("if style has heading level, prefer that"), and so it did with no
+definition of the style at all (the level was then read off the built-in name). The repaired
+`processHeading` reports level 3 on both. -/
+theorem odt_heading_own_style_level_pinned_counterexample :
     let name : Str := [72, 101, 97, 100, 105, 110, 103, 95, 50, 48, 95, 49]
     let h : Node := .elem [116, 101, 120, 116, 58, 104]
       [([116, 101, 120, 116, 58] ++ Odt.sStyleName, name), ([116, 101, 120, 116, 58] ++ Odt.sOutlineLevel, [51])] [.text [88]]
     Odt.level19 (h.attr Odt.sOutlineLevel) = some 3
-    ∧ (Odt.processHeading [{ name := name, defaultOutline := [49] }] h).heading = some 1
-    ∧ (Odt.processHeading [] h).heading = some 1 := by decide
+    ∧ (Odt.processHeadingOld [{ name := name, defaultOutline := [49] }] h).heading = some 1
+    ∧ (Odt.processHeadingOld [] h).heading = some 1
+    ∧ (Odt.processHeading [{ name := name, defaultOutline := [49] }] h).heading = some 3
+    ∧ (Odt.processHeading [] h).heading = some 3 := by decide
+
+/-- **odt_heading_old_precedence** (history). What the old `processHeading` reported: the level
+the style resolves to when there is one, else the heading's own `text:outline-level` in 1..10,
+else 1 (the former `odt_heading_level`). -/
+theorem odt_heading_old_precedence (defs : List Odt.StyleDef) (h : Node) :
+    (∀ l, Odt.resolveHeading defs (h.attr Odt.sStyleName) = some l → 0 < l → (Odt.processHeadingOld defs h).heading = some l)
+    ∧ (Odt.resolveHeading defs (h.attr Odt.sStyleName) = none →
+        (Odt.processHeadingOld defs h).heading = some ((Odt.level19 (h.attr Odt.sOutlineLevel)).getD 1)) := by
+  refine ⟨?_, ?_⟩
+  · intro l hr hl; simp [Odt.processHeadingOld, hr, hl]
+  · intro hr; simp [Odt.processHeadingOld, hr]
+
+/-- **odt_heading_repair_scope**. The repair changes the level of exactly the headings the
+finding was about: old and repaired `processHeading` give the same paragraph unless the heading
+says a valid level AND its style resolves to another one. -/
+theorem odt_heading_repair_scope (defs : List Odt.StyleDef) (h : Node)
+    (hs : Odt.level19 (h.attr Odt.sOutlineLevel) = none
+      ∨ Odt.resolveHeading defs (h.attr Odt.sStyleName) = none
+      ∨ Odt.resolveHeading defs (h.attr Odt.sStyleName) = Odt.level19 (h.attr Odt.sOutlineLevel)) :
+    Odt.processHeadingOld defs h = Odt.processHeading defs h := by
+  unfold Odt.processHeadingOld Odt.processHeading
+  cases hl : Odt.level19 (h.attr Odt.sOutlineLevel) with
+  | none =>
+    cases hr : Odt.resolveHeading defs (h.attr Odt.sStyleName) <;> simp
+  | some l =>
+    have hl0 := (level19_range _ l hl).1
+    cases hr : Odt.resolveHeading defs (h.attr Odt.sStyleName) with
+    | none => simp
+    | some l' =>
+      rw [hl, hr] at hs
+      have : l' = l := by simpa using hs
+      subst this
+      have : 0 < l' := by omega
+      simp [this]
+
+/-- and conversely: where the heading says a valid level and its style resolves to another
+one, the old reader reported the style's level, the repaired one the heading's -/
+theorem odt_heading_repair_effect (defs : List Odt.StyleDef) (h : Node) (l l' : Nat)
+    (hl : Odt.level19 (h.attr Odt.sOutlineLevel) = some l)
+    (hr : Odt.resolveHeading defs (h.attr Odt.sStyleName) = some l') :
+    (Odt.processHeadingOld defs h).heading = some l' ∧ (Odt.processHeading defs h).heading = some l := by
+  have h0 : 0 < l' := (odt_resolveHeading_range defs _ l' hr).1
+  refine ⟨by simp [Odt.processHeadingOld, hr, h0], by simp [Odt.processHeading, hl]⟩
 
 /-- a style whose own definition carries a default outline level in 1..10 gives that level -/
 theorem odt_style_level (defs : List Odt.StyleDef) (name : Str) (d : Odt.StyleDef) (l : Nat)
